@@ -538,6 +538,7 @@ pub fn run(ctx: Ctx) -> ! {
     let samples = std::mem::take(&mut total.samples);
     let n_viol: u64 = total.viol.values().map(|v| v.2).sum();
     let n_sigs = total.viol.len();
+    let by_sig: Vec<Json> = total.viol.iter().map(|(s, v)| json!({"signature": s, "violating_cases": v.2})).collect();
     total.flush(&ctx);
     println!(
         "C35 summary: {} sequences (<= {} points) x {} transforms, {} calls, {} distinct hulls, {} violating cases in {} signature(s)",
@@ -562,6 +563,7 @@ pub fn run(ctx: Ctx) -> ! {
             "epsilons": [0.0, 0.5, 1.0, 2.0],
             "per_length": axes,
             "counts": counts,
+            "violating_cases_by_signature_exact": by_sig,
             "distinct_hull_outcomes": distinct_outcomes,
         }),
         vec![
